@@ -30,6 +30,8 @@ def check(run):
     units.check_tree_builders(run, P)
     units.check_query_siblings(run, P)
     _query_preparation(run, P)
+    _sklearn_positional(run, P)
+    _element_count_follows_kind(run, P)
 
 
 def _query_preparation(run, P):
@@ -77,4 +79,79 @@ def _query_preparation(run, P):
         run.violation("F-UNIT/query-preparation", c, where(f), "; ".join(probs) + " - the haversine tree is built from (lat, lon) in radians whatever unit the query uses")
     else:
         run.holds("F-UNIT/query-preparation", c, where(f), "swap iff haversine, conversion iff degrees, on all four combinations", facts={str(k): v for k, v in seen.items()})
+
+
+# scikit-learn's documented signatures (BinaryTree.query / query_radius); the wrappers pass their same-named parameters positionally
+SKLEARN_SIG = {
+    "query": ["X", "k", "return_distance", "dualtree", "breadth_first", "sort_results"],
+    "query_radius": ["X", "r", "return_distance", "count_only", "sort_results"],
+}
+
+
+def _sklearn_positional(run, P):
+    """every positional argument handed to the sklearn tree sits in the slot of the sklearn parameter of the same name
+    (two booleans exchanged compile and run, but e.g. turn off sort_results: neighbours are no longer nearest-first)"""
+    import ast
+    from ..astutil import norm, where
+    n = 0
+    for f in P.all_functions():
+        if f.module.relpath != NEI or f.cls is None:
+            continue
+        for c in ast.walk(f.node):
+            if isinstance(c, ast.Call) and isinstance(c.func, ast.Attribute) and c.func.attr in SKLEARN_SIG and "_current_tree()" in norm(c.func.value):
+                sig_ = SKLEARN_SIG[c.func.attr]
+                n += 1
+                key = f"{f.key}:call({c.func.attr})@{'with' if any('d' == norm(t) or 'd,' in norm(t) for t in []) else ''}{c.lineno - f.node.lineno}"
+                bad = []
+                for i, a in enumerate(c.args[1:], start=1):
+                    if i < len(sig_) and isinstance(a, ast.Name) and a.id in sig_ and a.id != sig_[i]:
+                        bad.append(f"argument '{a.id}' is passed in the slot of sklearn's '{sig_[i]}'")
+                for k in c.keywords:
+                    if k.arg in sig_ and isinstance(k.value, ast.Name) and k.value.id in sig_ and k.value.id != k.arg:
+                        bad.append(f"'{k.value.id}' passed as {k.arg}=")
+                if bad:
+                    run.violation("F-SIG/sklearn-positional", key, where(f, c), "; ".join(bad) + f" (sklearn: {c.func.attr}({', '.join(sig_)}))")
+                else:
+                    run.holds("F-SIG/sklearn-positional", key, where(f, c), f"positional arguments follow sklearn's {c.func.attr}({', '.join(sig_)})")
+    run.floor("F-SIG/sklearn-positional", n, 10)
+
+
+def _element_count_follows_kind(run, P):
+    """the `coordinates` setter of both tree classes: the element count used to validate k is that of the kind just selected on EVERY
+    path of the kind's branch (also when the kind's sklearn tree already exists and is only switched to)"""
+    import ast
+    from ..astutil import norm, str_const, where
+    from ..flow import enumerate_paths
+    KIND = {"nodes": "n_node", "face centers": "n_face", "edge centers": "n_edge"}
+    for cls in ("BallTree", "KDTree"):
+        ci = P.cls(f"{NEI}:{cls}")
+        setter = None
+        for st in ci.node.body:
+            if isinstance(st, ast.FunctionDef) and st.name == "coordinates" and any(norm(d).endswith(".setter") for d in st.decorator_list):
+                setter = st
+        c0 = f"{cls}.coordinates.setter"
+        if setter is None:
+            run.incomplete("F-TABLE/element-count", c0, NEI, "coordinates setter not found")
+            continue
+        chain = next((s2 for s2 in setter.body if isinstance(s2, ast.If)), None)
+        seen = set()
+        stx = chain
+        while stx is not None:
+            lit = next((n.value for n in ast.walk(stx.test) if isinstance(n, ast.Constant) and n.value in KIND), None)
+            if lit is not None:
+                seen.add(lit)
+                paths = [p for p in enumerate_paths(stx.body) if p.exit != "raise"]
+                bad = 0
+                for p in paths:
+                    vals = [norm(e.value) for e in p.events if isinstance(e, ast.Assign) and norm(e.targets[0]) == "self._n_elements"]
+                    if not vals or not vals[-1].endswith("." + KIND[lit]):
+                        bad += 1
+                c = f"{cls}.coordinates.setter:count[{lit}]"
+                if bad:
+                    run.violation("F-TABLE/element-count", c, f"{NEI}:{stx.lineno}", f"on {bad} of {len(paths)} path(s) of the '{lit}' branch self._n_elements is not set to the grid's {KIND[lit]}: after switching back to an already built tree the k-bound of another element kind is applied")
+                else:
+                    run.holds("F-TABLE/element-count", c, f"{NEI}:{stx.lineno}", f"_n_elements = {KIND[lit]} on all {len(paths)} paths")
+            stx = stx.orelse[0] if len(stx.orelse) == 1 and isinstance(stx.orelse[0], ast.If) else None
+        if seen != set(KIND):
+            run.incomplete("F-TABLE/element-count", c0, NEI, f"kind branches found: {sorted(seen)}")
 
